@@ -30,8 +30,8 @@ var propDefs = map[string]PropDef{
 	"C08": {Classes: []string{"POST", "INV", "PRE", "LEMMA"}, Level: "proof"},
 	"C09": {Classes: []string{"POST", "INV", "PRE", "LEMMA"}, Level: "proof"},
 	"C10": {Classes: []string{"POST", "INV", "PRE", "LEMMA"}, Level: "proof"},
-	"C11": {Classes: []string{"FRAME", "PRE"}, Level: "proof"},
-	"C12": {Classes: []string{"OWN", "POST", "PRE", "INV"}, Level: "proof"},
+	"C11": {Classes: []string{"FRAME"}, Level: "proof"},
+	"C12": {Classes: []string{"OWN", "POST", "INV"}, Level: "proof"},
 	"C13": {Classes: []string{"POST", "LEMMA", "PRE", "INV"}, Level: "proof"},
 	"C14": {Classes: []string{"POST", "INV", "PRE", "LEMMA"}, Level: "proof"},
 	"C15": {Classes: []string{"POST", "INV", "PRE", "TERM", "LEMMA"}, Level: "proof"},
